@@ -24,7 +24,7 @@ def parseArgs (a : List String) : Option (DecState × FrameIn) :=
   | [fs, nb, lc, ps, lp, lgi, ffar, pg, slpc, pn, ob, cc, st, qo, gi, ni, ic, li, ci, per, lti, lsi, seed, pulses] => do
     let s : DecState := {
       fsKHz := ← parseNat fs, nbSubfr := ← parseNat nb, sLPC := ← parseIntList slpc, outBuf := ← parseIntList ob,
-      excQ14 := List.replicate Opus.Gen.SilkCoreTabs.szExcQ14 0, prevGainQ16 := ← parseInt pg, lagPrev := ← parseInt lp,
+      excQ14 := List.replicate Opus.Frozen.SilkCoreTabs.szExcQ14 0, prevGainQ16 := ← parseInt pg, lagPrev := ← parseInt lp,
       lastGainIndex := ← parseInt lgi, prevNlsf := ← parseIntList pn, firstFrameAfterReset := ← parseInt ffar,
       prevSignalType := ← parseInt ps, lossCnt := ← parseInt lc }
     let f : FrameIn := {
